@@ -58,6 +58,12 @@ def cells(tier, seed):
             out.append({'id': f"finite-stock-vessel/{vname}/{cu.replace('/', '_')}/{qu}", 'fn': 'h_from', 'round': 'lite',
                         'max_paths': 400, 'cost': 6, 'params': {'comps': comps, 'solute': solute, 'solvent': solvent,
                                                                 'cu': cu, 'qu': qu, 'with_cap': True}})
+    # history: the same request was made before on a stock that compares equal (same name, same amounts) but holds another
+    # lot of the enzyme (same name, four times the specific activity)
+    for cu, qu in [('M', 'g'), ('mg/g', 'g'), ('M', 'mL')]:
+        out.append({'id': f"history/relotted-stock/{cu.replace('/', '_')}/{qu}", 'fn': 'h_from', 'round': 'lite',
+                    'max_paths': 400, 'cost': 6, 'params': {'comps': ['NaCl', 'water', 'lipase'], 'solute': 'NaCl',
+                                                            'solvent': 'water', 'cu': cu, 'qu': qu, 'relot': True}})
     out.append({'id': "guards", 'fn': 'h_guards', 'round': 'lite', 'max_paths': 50, 'params': {}})
     return out
 
@@ -102,6 +108,18 @@ def h_from(h):
     if container_solvent:
         conds_ok.append(h.le((dy - det) * det, 0))
         conds_bad.append(h.ge((dy - det) * det, 0))
+    if p.get('relot'):
+        from copy import deepcopy
+        twin = deepcopy(stock)
+        for s_ in list(twin.contents):
+            if s_.is_enzyme():
+                other = h.env.Substance.enzyme(s_.name, '1 U/g')
+                other.specific_activity = s_.specific_activity * 4
+                twin.contents = {(other if k is s_ else k): v for k, v in twin.contents.items()}
+        try:
+            C.create_solution_from(twin, solute, f"{ct} {p['cu']}", solvent_arg, f"{Q} {p['qu']}", name='new')
+        except ValueError:
+            pass
     try:
         res = C.create_solution_from(stock, solute, f"{ct} {p['cu']}", solvent_arg, f"{Q} {p['qu']}", name='new')
     except ValueError:
